@@ -78,6 +78,14 @@ Definition rejecting (a : auth_mode) : bool := match auth_outcome a with AR_rej 
 Definition auth_err (a : auth_mode) : bool :=
   match a with A_none | A_ok | A_introspector | A_nilnil => false | _ => true end.
 
+(* the *AuthContext component the AuthenticateFunc returns TOGETHER WITH an
+   error (identified-but-refused callers: expired, suspended, revocation list
+   unreachable ...). Meaningless for the modes that return no error. The
+   verdict of HttpServer.authenticate is a function of the error component
+   alone: nothing below looks at it except the best-effort principal lookup of
+   the session-delete route. *)
+Inductive ctxc := CX_nil | CX_alice | CX_introspector.
+
 (* SetOAuthPkce succeeds only with an authenticator and resource metadata *)
 Definition pkce_on (c : config) (a : auth_mode) : bool := c_pkce c && c_oauth c && has_auth a.
 
@@ -303,11 +311,21 @@ Inductive work :=
   | W_custom.         (* an operator-registered handler ran *)
 Scheme Equality for work.
 
+(* response body classes: nothing / exactly the standard 401 JSON document /
+   exactly the 503 text / exactly the 500 text / anything else (in particular a
+   rejection body FOLLOWED by handler output) *)
+Inductive bkind := BK_empty | BK_rej401 | BK_rej503 | BK_rej500 | BK_other.
+Scheme Equality for bkind.
+(* the body the auth layer writes with each of its statuses ((nil,nil): none) *)
+Definition bk_of (st : N) : bkind :=
+  if st =? 401 then BK_rej401 else if st =? 503 then BK_rej503 else if st =? 500 then BK_rej500 else BK_empty.
+
 Record obs := {
   o_status : N;
   o_work : list work;     (* in the order of the constructors above *)
   o_consulted : bool;     (* the AuthenticateFunc was called at least once *)
-  o_pat : bytes }.        (* pattern the mux matched; [] = answered by the mux itself *)
+  o_pat : bytes;          (* pattern the mux matched; [] = answered by the mux itself *)
+  o_body : option bkind }. (* what the response body is; None (model only) = not predicted *)
 
 Inductive mkind := MK_unary | MK_prod | MK_exch | MK_unknown.
 (* the scripted surface of the harness *)
@@ -392,11 +410,21 @@ Definition gated_handler (c : config) (a : auth_mode) (r : rid) (ss : list bytes
   end.
 
 (* principal the best-effort authenticateRequest of the session-delete route sees *)
-Definition delete_sees_anonymous (a : auth_mode) : bool :=
-  match a with A_ok | A_introspector => false | _ => true end.
+Inductive principal := P_anon | P_alice | P_other.
+(* authenticateRequest: `auth, _ := h.authenticateFunc(r)` - the error is
+   dropped and a non-nil context is used even when it came with an error. With
+   PKCE on the callback is ChainAuthenticate(...), which returns (nil, err). *)
+Definition delete_principal (c : config) (a : auth_mode) (x : ctxc) : principal :=
+  match a with
+  | A_ok => P_alice
+  | A_introspector => P_other
+  | A_none | A_nilnil => P_anon
+  | _ => if pkce_on c a then P_anon
+         else match x with CX_nil => P_anon | CX_alice => P_alice | CX_introspector => P_other end
+  end.
 
 (* handlers that do not authenticate: status, work, authenticator consulted *)
-Definition open_handler (c : config) (a : auth_mode) (r : rid) (q : request) : N * list work * bool :=
+Definition open_handler (c : config) (a : auth_mode) (x : ctxc) (r : rid) (q : request) : N * list work * bool :=
   match r with
   | R_health_root | R_health_pfx => (200, [], false)
   | R_wellknown => (if c_oauth c then 200 else 404, [], false)
@@ -411,14 +439,16 @@ Definition open_handler (c : config) (a : auth_mode) (r : rid) (q : request) : N
       match q_sess q with
       | S_none => (200, [], false)
       | S_garbage => (200, [], has_auth a)
-      | S_anon => if delete_sees_anonymous a then (204, [W_session_close], has_auth a) else (200, [], has_auth a)
-      | S_alice => match a with A_ok => (204, [W_session_close], true) | _ => (200, [], has_auth a) end
+      | S_anon => match delete_principal c a x with
+                  | P_anon => (204, [W_session_close], has_auth a) | _ => (200, [], has_auth a) end
+      | S_alice => match delete_principal c a x with
+                   | P_alice => (204, [W_session_close], has_auth a) | _ => (200, [], has_auth a) end
       end
   | R_upload => let '(st, w) := h_upload c q in (st, w, false)   (* legacy tree only *)
   | _ => (500, [], false)
   end.
 
-Definition run_route_gen (legacy : bool) (c : config) (a : auth_mode) (r : rid) (ss : list bytes) (q : request)
+Definition run_route_gen (legacy : bool) (c : config) (a : auth_mode) (x : ctxc) (r : rid) (ss : list bytes) (q : request)
   : N * list work * bool :=
   match gate_of_gen legacy c (pkce_on c a) r with
   | G_auth =>
@@ -429,30 +459,34 @@ Definition run_route_gen (legacy : bool) (c : config) (a : auth_mode) (r : rid) 
   | G_stub => (404, [], false)
   | G_login_wall =>
       if auth_err a then ((if q_html q then 302 else 401), [], true) else (200, [], true)
-  | G_open => open_handler c a r q
+  | G_open => open_handler c a x r q
   end.
 
 Definition is_options (m : meth) : bool := match m with M_OPTIONS => true | _ => false end.
 Definition redirect_status : N := Z.to_N c22_redirect_status.
 
 (* ServeHTTP *)
-Definition serve_gen (legacy : bool) (c : config) (a : auth_mode) (q : request) : obs :=
+Definition serve_gen (legacy : bool) (c : config) (a : auth_mode) (x : ctxc) (q : request) : obs :=
   let pk := pkce_on c a in
   match parse_path (q_path q) with
   | None =>
       {| o_status := if is_options (q_meth q) then 204 else redirect_status;
-         o_work := []; o_consulted := false; o_pat := [] |}
+         o_work := []; o_consulted := false; o_pat := []; o_body := None |}
   | Some (ss, tr) =>
       let d := dispatch c pk (q_meth q) ss tr in
       let ps := match d with D_route r => pat_str (route_pat c r) | _ => [] end in
       if is_options (q_meth q) then   (* CORS preflight: answered before the mux *)
-        {| o_status := 204; o_work := []; o_consulted := false; o_pat := ps |}
+        {| o_status := 204; o_work := []; o_consulted := false; o_pat := ps; o_body := Some BK_empty |}
       else match d with
            | D_route r =>
-               let '(st, w, cs) := run_route_gen legacy c a r ss q in
-               {| o_status := st; o_work := w; o_consulted := cs; o_pat := ps |}
-           | D_405 => {| o_status := 405; o_work := []; o_consulted := false; o_pat := [] |}
-           | D_404 => {| o_status := 404; o_work := []; o_consulted := false; o_pat := [] |}
+               let '(st, w, cs) := run_route_gen legacy c a x r ss q in
+               {| o_status := st; o_work := w; o_consulted := cs; o_pat := ps;
+                  o_body := match gate_of_gen legacy c pk r, auth_outcome a with
+                            | G_auth, AR_rej s0 => Some (bk_of s0)   (* only what the auth layer wrote *)
+                            | _, _ => None
+                            end |}
+           | D_405 => {| o_status := 405; o_work := []; o_consulted := false; o_pat := []; o_body := None |}
+           | D_404 => {| o_status := 404; o_work := []; o_consulted := false; o_pat := []; o_body := None |}
            end
   end.
 Definition run_route := run_route_gen false.
@@ -468,16 +502,25 @@ Definition routed (c : config) (a : auth_mode) (q : request) : option rid :=
        end.
 
 (* ---- correspondence interface ----------------------------------------- *)
-Inductive input := Probe (c : config) (a : auth_mode) (q : request).
+Inductive input := Probe (c : config) (a : auth_mode) (x : ctxc) (q : request).
 
-Definition model (i : input) : obs := match i with Probe c a q => serve c a q end.
-Definition model_legacy (i : input) : obs := match i with Probe c a q => serve_gen true c a q end.
+Definition model (i : input) : obs := match i with Probe c a x q => serve c a x q end.
+Definition model_legacy (i : input) : obs := match i with Probe c a x q => serve_gen true c a x q end.
 
 Definition obs_eqb (x y : obs) : bool :=
   N.eqb (o_status x) (o_status y) && list_eqb work_beq (o_work x) (o_work y)
-  && Bool.eqb (o_consulted x) (o_consulted y) && beqb (o_pat x) (o_pat y).
+  && Bool.eqb (o_consulted x) (o_consulted y) && beqb (o_pat x) (o_pat y)
+  && match o_body x with    (* x = the model: None = body not predicted *)
+     | None => true
+     | Some k => match o_body y with Some k' => bkind_beq k k' | None => false end
+     end.
 
-(* ---- the property, decided on the implementation's observables ---------- *)
+(* ---- the property, decided on the implementation's observables ----------
+   Independent of [serve]: uses the pattern the REAL mux reported, the table's
+   first-action column, and the error component of the authenticator script
+   only (the context component is ignored: [Probe c a _ q]). A rejected request
+   on a gated route must show the auth layer's status, an EMPTY work trace, and
+   a body that is exactly the auth layer's rejection body. *)
 Definition route_of_pat (c : config) (pk : bool) (s : bytes) : option rid :=
   find (fun r => beqb (pat_str (route_pat c r)) s) (registered c pk).
 
@@ -494,7 +537,7 @@ Definition wsubset (a b : list work) : bool := forallb (fun w => existsb (work_b
 
 Definition spec_ok (i : input) (o : obs) : bool :=
   match i with
-  | Probe c a q =>
+  | Probe c a _ q =>
       match auth_outcome a with
       | AR_pass => true
       | AR_rej st =>
@@ -506,6 +549,8 @@ Definition spec_ok (i : input) (o : obs) : bool :=
                       | Some r =>
                           if auth_required c (pkce_on c a) r
                           then (o_status o =? st) && is_nil (o_work o) && o_consulted o
+                               && match o_body o with   (* nothing beyond the rejection body *)
+                                  | Some k => bkind_beq k (bk_of st) | None => false end
                           else wsubset (o_work o) (open_work r)
                       end
                end
